@@ -766,8 +766,10 @@ impl<Sink: TokenSink> XmlTokenizer<Sink> {
             XmlState::PiAfter => loop {
                 match get_char!(self, input) {
                     '>' => go!(self: emit_pi Data),
-                    '?' => go!(self: to XmlState::PiAfter),
-                    cl => go!(self: push_pi_data cl),
+                    // Only "?>" ends the processing instruction: a '?' followed by
+                    // anything else is part of its data.
+                    '?' => go!(self: push_pi_data '?'),
+                    _ => go!(self: push_pi_data '?'; reconsume XmlState::PiData),
                 }
             },
             //§ markup-declaration-state
